@@ -67,6 +67,9 @@ def gen_cases(tier):
     # (i) the command line route: --version / --error / --micro / --no-micro / --no-error-boost
     for i in range(len(CLI_CONTENTS)):
         yield ('cli', i)
+    # (j) what the format information of every (version, level, mask) announces is the level of the object (C05's observation point)
+    for v in T.ORDER:
+        yield ('fmtcells', v)
     # (g) cross-talk: one process, one fixed order and its reverse (exposes state shared between calls, e.g. incompletely keyed caches)
     yield ('crosstalk', 0)
     yield ('crosstalk', 1)
@@ -314,8 +317,27 @@ def run_case(case, acc, want='both'):
                 for mic in (None, '--micro', '--no-micro'):
                     for boost in (None, '--no-error-boost'):
                         cli_one(case[1], ver, err, mic, boost, acc, want)
+                        if mic is None and ver is not None and ver.isdigit():
+                            cli_one(case[1], ver, err, '--seq', boost, acc, want)
     elif kind == 'cli1':
         cli_one(case[1], case[2], case[3], case[4], case[5], acc, want)
+    elif kind == 'fmtcells':
+        v = case[1]
+        if want == 'c04':
+            return
+        for lvl in T.levels_of(v):
+            for m in range(4 if T.is_micro(v) else 8):
+                kw = {'version': v, 'mask': m, 'boost_error': False}
+                if lvl is not None:
+                    kw['error'] = lvl
+                for content in ('7', 'A7') if T.mode_supported('alphanumeric', v) else ('7',):
+                    qr = segno.make(content, **kw)
+                    fv, fl, fm, fw = C.D.read_format(qr.matrix)
+                    acc.eval(('fmtcell', v, lvl, m, content), nontrivial=True, outcome=(fv, fl), state=('fmtcell', v, lvl, m))
+                    acc.count('format_cells')
+                    if fl != lvl or qr.error != lvl or fv != v:
+                        acc.violation('level/format-info', 'make(%r, **%r): format information carries %r-%r, the object reports %r-%r' % (content, kw, fv, fl, qr.version, qr.error),
+                                      ('fmtcells', v))
     elif kind == 'bitexact':
         for lvl in T.levels_of(case[1]):
             for over in (0, 1):
@@ -423,6 +445,12 @@ def cli_one(ci, ver, err, mic, boost, acc, want):
         argv += ['--version', ver]
     if err is not None:
         argv += ['--error', err]
+    seq = mic == '--seq'
+    mic0 = mic
+    if seq:
+        # --seq with a version the content fits: one plain symbol of that version, the same decision as without --seq
+        argv += ['--seq']
+        mic = None
     if mic:
         argv.append(mic)
     if boost:
@@ -451,11 +479,16 @@ def cli_one(ci, ver, err, mic, boost, acc, want):
         except SystemExit:
             return None, ValueError('command line not accepted')
         try:
-            return cli.make_code(cfg), None
+            res = cli.make_code(cfg)
         except Exception as e:  # judged by evaluate
             return None, e
+        if seq:
+            if len(res) != 1:
+                return None, segno.DataOverflowError('several symbols (the content does not fit one symbol of the version: correct for --seq)')
+            return res[0], None
+        return res, None
     n = len(text)
-    evaluate(acc, ('cli1', ci, ver, err, mic, boost), text, [(mode, n, False)], kw, decode=True, exp_bytes=text.encode('shift_jis' if mode == 'kanji' else 'latin-1'),
+    evaluate(acc, ('cli1', ci, ver, err, mic0, boost), text, [(mode, n, False)], kw, decode=True, exp_bytes=text.encode('shift_jis' if mode == 'kanji' else 'latin-1'),
              want=want, maker=maker)
     acc.count('cli_requests')
 
